@@ -132,8 +132,11 @@ pub fn run(seed: u64, tier: &str, out: &mut Out) {
     let mut rng = Rng::new(seed);
     let n = if tier == "thorough" { 5_000 } else { 150 };
     for _ in 0..n {
-        let mut c = multi::gen_case(&mut rng, false);
-        c.ops.truncate(14);
+        // a third of the histories use bottom alignment, a third are the phase-structured scenarios around finished, dropped and reaped
+        // bars (with bottom alignment in half of them): the frame bookkeeping there does arithmetic on counts that a failed draw left stale
+        let mut c = match rng.below(3) { 0 => multi::gen_case(&mut rng, false), 1 => multi::gen_case(&mut rng, true),
+            _ => { let mut c = multi::gen_scenario(&mut rng); if rng.chance(1, 2) { c.ops.insert(0, MOp::Align(true)); } c } };
+        c.ops.truncate(if c.ops.first().map_or(false, |o| matches!(o, MOp::Align(_))) { 22 } else { 14 });
         // half of the histories change the draw target somewhere (a rarely used call with its own terminal traffic)
         if rng.chance(1, 2) { let at = rng.below(c.ops.len() as u64 + 1) as usize; c.ops.insert(at, MOp::Retarget); }
         let kind0 = rng.below(KINDS.len() as u64) as usize;
